@@ -141,6 +141,9 @@ def cases(tier, seed, ctx=None):
             resp.insert(0, G.WriteHeaders)
         pol = rng.choice([[resp, [], []], [[], resp, []]]) if sent else [resp, [], []]
         ops = [G.Construct, G.Feed(head + body[:sent]), G.Turn] + [G.Ack(rng.choice([1, 19, 25, 40])) for _ in range(rng.range(0, 3))]
+        if sent == len(body) and q["cl"] >= 0 and rng.chance(1, 2):
+            # the client sends more after its complete request (a stray CRLF, a pipelined request) while the response is on its way
+            ops.insert(rng.range(2, len(ops)), G.Feed(rng.choice([b"\r\n", b"GET /next HTTP/1.1\r\n\r\n", b"x"])))
         skel = [pol, ops, G.env_for(rver, rtab, [q["raw"]])]
         late_reqs.append(skel)
     dry = ctx["probe"]("sock", [[pol, [o for o in ops if o[0] != 1], env2] for pol, ops, env2 in late_reqs])
@@ -250,3 +253,9 @@ def cases(tier, seed, ctx=None):
     for j in range(2 if tier == "quick" else 10):
         yield ("tlsraw", [b"GET /notify HTTP/1.1\r\nHost: h\r\n\r\n", 0, 0, [], 1, 0, 0], "%s-notifications-before-close" % 'tlsraw')
     yield ("tlsraw", [b"GET /bighuge HTTP/1.1\r\nHost: h\r\n\r\n", 0, 0, [], 1, 0, 6], "%s-slow-reader" % 'tlsraw')
+    # a streaming producer over a real connection: a burst of large blocks written back to back (more than 64 KiB pending), topped up
+    # from inside the write-progress notification: the blocks arrive in the order of the write calls (family stream)
+    for j in range(3 if tier == "quick" else 20):
+        nblocks = rng.choice([8, 24, 64])
+        chunks = [bytes([65 + (k % 26)]) * rng.choice([4096, 20000]) for k in range(nblocks)]
+        yield ("stream", [chunks, j % 2, rng.below(2), rng.choice([3, 6, 12])], "stream-burst-topped-up")
